@@ -48,7 +48,7 @@ LOG_LITS = [".true.", ".false.", ".TRUE.", ".false._lk"]
 BOZ_LITS = ["b'101'", "o'17'", "z'FF'", 'Z"1a"']
 STR_LITS = ["'abc'", '"abc"', "'it''s'", '"say ""hi"""', "'a!b'", "'x & y'", "'a;b'", "'(x)'", '"don\'t"',
             "''", "' '", "'a, b'", "\"it's (ok)\"", "'1.0e-3'", "'.and.'", "'''q'",
-            "'end'", "'ab c'", "\"'ab c'\""]
+            "'end'", "'ab c'", "\"'ab c'\"", "'use !$ here'", '"c$ *$ !$omp x"', "'#if 0'", "'a // b'", "'x=1;;y'"]
 
 
 def has_top_dotted(e):
@@ -220,6 +220,14 @@ class Gen:
 
     def name(self, pool):
         return self.r.pick(pool)
+
+    def shuffled(self, items):
+        """A permutation of items drawn through the case's random source (shrinks towards the given order)."""
+        items = list(items)
+        out = []
+        while items:
+            out.append(items.pop(self.r.n(0, len(items) - 1)))
+        return out
 
     def fresh_unit_name(self, pool=UNIT_NAMES):
         for _ in range(30):
@@ -781,8 +789,8 @@ class Gen:
                 return "%s" % unit
             if c == 4:
                 return "%s, nml = nl" % unit
-            return "unit = %s, fmt = *, %s" % (r.pick(["10", "*"]),
-                                               r.pick(["err = %LABEL%", "end = %LABEL%", "advance = 'no'"]))
+            return ", ".join(self.shuffled(["unit = %s" % r.pick(["10", "*"]), "fmt = *",
+                                            r.pick(["err = %LABEL%", "end = %LABEL%", "advance = 'no'"])]))
         return unit
 
     def io_list(self, out=True):
@@ -899,8 +907,16 @@ class Gen:
                     specs.append(s)
             if self.o.f08 and r.chance(25):
                 self.f08_used += 1
-                return S("open(newunit = lun, file = 'f.txt')", "open", f08=True, removable=True)
+                return S("open(%s)" % r.pick(["newunit = lun, file = 'f.txt'", "file = 'f.txt', newunit = lun",
+                                               "status = 'old', newunit = lun, file = fname"]), "open", f08=True, removable=True)
+            if r.chance(30):
+                # all specifiers by keyword: any order (C904/C905 only restrict a unit without 'UNIT=')
+                specs[0] = "unit = %s" % r.pick(["10", "lun"])
+                specs = self.shuffled(specs)
             return S("open(%s)" % ", ".join(specs), "open", removable=True)
+        if c == 20 and r.chance(30):
+            return S("close(%s)" % ", ".join(self.shuffled(["unit = %s" % r.pick(["10", "lun"]), "iostat = ios",
+                                                            "status = 'keep'"][:r.n(2, 3)])), "close", removable=True)
         if c == 20:
             return S("close({+unit = }%s%s)" % (r.pick(["10", "lun"]), r.pick(["", ", status = 'keep'", ", iostat = ios"])),
                      "close", removable=True)
@@ -922,6 +938,10 @@ class Gen:
                          removable=True)
             return S("print *", "print", removable=True)
         if c == 24:
+            if r.chance(30):
+                return S("inquire(%s)" % ", ".join(self.shuffled([r.pick(["unit = 10", "file = 'f.txt'"]), "exist = ok",
+                                                                  "iostat = ios", "opened = flag"][:r.n(2, 4)])),
+                         "inquire", removable=True)
             return S("inquire(%s, %s)" % (r.pick(["unit = 10", "file = 'f.txt'", "{+unit = }10"]),
                                           r.pick(["exist = ok", "opened = flag", "iostat = ios"])), "inquire",
                      removable=True)
